@@ -114,6 +114,11 @@ func c20Gen(g *core.Gen) {
 			} {
 				g.Emit(&c20Case{Fmt: f, Cmd: c, Class: "usage", State: "intact", Cwd: cw})
 			}
+			// words that are NOT commands but sit next to one: the empty word, blanks, every proper prefix of length >= 2,
+			// a command with one more letter, a doubled initial, a command with a blank before / after it
+			for _, w := range []string{"", " ", "-", "cr", "cre", "crea", "creat", "createx", "cc", "c ", " c", "ve", "ver", "veri", "verif", "verifyy", "vv", " v", "re", "rep", "repa", "repai", "repairr", "rr", "r ", "x", "create ", " verify", "v\n"} {
+				g.Emit(&c20Case{Fmt: f, Cmd: []string{w, "{PAR}", "{F0}", "{F1}"}, Class: "usage", State: "intact", Cwd: cw})
+			}
 			for _, c := range [][]string{{"verify", "{ZIP}"}, {"repair", "{ZIP}"}, {"create", "{ZIP}", "{F0}"}, {"verify", "{NOEXT}"}} {
 				g.Emit(&c20Case{Fmt: f, Cmd: c, Class: "badext", State: "intact", Cwd: cw})
 			}
@@ -590,7 +595,7 @@ func init() {
 	core.Register(&core.Prop{
 		ID:    "C20",
 		Level: "model_checking",
-		Rule: "full product through the built par binary: {PAR1, PAR2} x {verify, v, VERIFY, -g 2 verify, verify -a; repair, r, Repair, repair -doublecheck, -g 3 r -doublecheck=true} x archive state {intact, repairable by deletion, by shift/change, by removing appended bytes, shift+deletion, unrepairable, no parity (data intact / file deleted / file only shifted), one block left + shift, damaged index, missing index, a 17000-byte first file intact / damaged beyond or within its first 16 KiB with exactly one recovery block (volume) left or with all} x invocation directory {set directory with relative paths, parent with relative paths, unrelated with absolute paths}; command histories: a first verify / repair followed by every sequence of 2 (thorough 3) further steps from {verify, verify -a, repair, repair -doublecheck, delete a file, restore all files} from 5 starting states, every command judged against the byte truth at that moment; create variants (incl. option values at and beyond their limits - slice size 0 / 6 / negative / 2^20, block count 0 / -1 / 255 / 256 / 32768 / 65534 / 65535 / 65536, goroutines 0 / negative / 100000, an input listed twice, the index as its own input, no input, inputs whose names look like members of the set (s.pdf, s.par2.txt, s.vol-notes): there only 'exit 0 => complete valid set' is judged -; missing input, missing directory, an output path blocked by a directory: index, first and last recovery file), 11 usage-error command lines, unknown extensions. " +
+		Rule: "full product through the built par binary: {PAR1, PAR2} x {verify, v, VERIFY, -g 2 verify, verify -a; repair, r, Repair, repair -doublecheck, -g 3 r -doublecheck=true} x archive state {intact, repairable by deletion, by shift/change, by removing appended bytes, shift+deletion, unrepairable, no parity (data intact / file deleted / file only shifted), one block left + shift, damaged index, missing index, a 17000-byte first file intact / damaged beyond or within its first 16 KiB with exactly one recovery block (volume) left or with all} x invocation directory {set directory with relative paths, parent with relative paths, unrelated with absolute paths}; command histories: a first verify / repair followed by every sequence of 2 (thorough 3) further steps from {verify, verify -a, repair, repair -doublecheck, delete a file, restore all files} from 5 starting states, every command judged against the byte truth at that moment; create variants (incl. option values at and beyond their limits - slice size 0 / 6 / negative / 2^20, block count 0 / -1 / 255 / 256 / 32768 / 65534 / 65535 / 65536, goroutines 0 / negative / 100000, an input listed twice, the index as its own input, no input, inputs whose names look like members of the set (s.pdf, s.par2.txt, s.vol-notes): there only 'exit 0 => complete valid set' is judged -; missing input, missing directory, an output path blocked by a directory: index, first and last recovery file), 11 usage-error command lines plus 29 near-command words (the empty word, blanks, proper prefixes, one letter too many, padded with blanks), unknown extensions. " +
 			"Oracle (one-directional, as stated): exit 0 => full success by byte truth / library re-verification (for create also: taking any one input away makes the new set need repair); verify needed&possible => 1, needed&impossible => 2; repair needed&impossible => 2, possible => 0 and files restored; usage => 3; other failures => neither 0 nor 3; no Go panic; files created relative to the invocation directory. non-trivial = verify/repair/create runs",
 		Assumptions: []string{"'needed' = some protected file not byte-identical; 'possible' = reference count of unfindable slices (unusable files) <= intact recovery blocks (volumes) present"},
 		NewCase:     func() interface{} { return &c20Case{} },
